@@ -568,19 +568,26 @@ class ForestRuleExtractor:
             self._rules_for_class(c) for c in all_classes
         )
         for normal_rule in all_normal_rules:
-            potential_rules = [normal_rule]
-            if normal_rule.is_reversible():
-                assert isinstance(normal_rule, Rule)
-                potential_rules.extend(
-                    normal_rule.to_reverse_rule(i)
-                    for i in range(len(normal_rule.children))
-                )
-            for rule in potential_rules:
-                if (
-                    rule.forest_key(self.classdb.get_label, self.classdb.is_empty)
-                    == rule_key
-                ):
-                    return rule
+            try:
+                potential_rules = [normal_rule]
+                if normal_rule.is_reversible():
+                    assert isinstance(normal_rule, Rule)
+                    potential_rules.extend(
+                        normal_rule.to_reverse_rule(i)
+                        for i in range(len(normal_rule.children))
+                    )
+                for rule in potential_rules:
+                    if (
+                        rule.forest_key(
+                            self.classdb.get_label, self.classdb.is_empty
+                        )
+                        == rule_key
+                    ):
+                        return rule
+            except StrategyDoesNotApply:
+                # A factory can yield a rule whose children cannot be computed;
+                # the searcher ignores such a rule and so do we.
+                continue
         err = f"Can't find a rule for {rule_key}\n"
         err += f"Parent:\n{self.classdb.get_class(rule_key.parent)}\n"
         for i, l in enumerate(rule_key.children):
